@@ -224,18 +224,28 @@ F9_PINS = {"clock": ({"micro": 0, "icmp_id": 4242}, {"micro": 123456, "icmp_id":
            "icmp-identifier": ({"micro": 123456, "icmp_id": 7}, {"micro": 123456, "icmp_id": 54321})}
 
 
-def f9_replay(ctx: Ctx):
+def f9_compute() -> List[Tuple[str, Optional[dict], bool]]:
     """Known finding F-9, replayed on the implementation on every run (one interpreter with a clock whose microsecond field is
-    zero, one with a clock whose field is not; likewise a 1-digit and a 5-digit ICMP identifier)."""
+    zero, one with a clock whose field is not; likewise a 1-digit and a 5-digit ICMP identifier). No Ctx access: runs in a thread."""
     stored = {}
     f = VERIF / "corpus" / "C03" / "f9_frame_size_text_length.json"
     if f.exists():
         stored = json.loads(f.read_text()).get("bandwidth", {})
+    out = []
     for which, (pa, pb) in F9_PINS.items():
         w = f9_try(stored[which], pa, pb) if which in stored else None
+        searched = False
         if w is None:
-            ctx.count("f9:stored-witness-did-not-fail-searching-again")
+            searched = True
             w = f9_search(pa, pb)
+        out.append((which, w, searched))
+    return out
+
+
+def f9_record(ctx: Ctx, results):
+    for which, w, searched in results:
+        if searched:
+            ctx.count("f9:stored-witness-did-not-fail-searched-again")
         if w is None:
             ctx.notes.append(f"F-9 ({which}): no witness found on this tree (finding may be repaired)")
             ctx.count("f9:no-witness:" + which)
@@ -436,7 +446,8 @@ def run(ctx: Ctx):
     for name, variant, cfg, ops in cases(ctx):
         all_cases.append((name, variant, cfg, ops, variants(ctx, vr)))
     agree = 0
-    with cf.ThreadPoolExecutor(ctx.scale(3, 4)) as ex:
+    with cf.ThreadPoolExecutor(ctx.scale(4, 5)) as ex:
+        f9_future = ex.submit(f9_compute)  # the known finding is replayed alongside
         futs = [(c, ex.submit(check_case, *c)) for c in all_cases]
         for c, fu in futs:
             name, variant, cfg, ops, vs = c
@@ -460,4 +471,4 @@ def run(ctx: Ctx):
     ctx.oblige("rig:R-env identical canonical trajectories across processes and across re-seeded episodes", "correspondence",
                agree == len(all_cases), f"{len(all_cases) - agree} of {len(all_cases)} cases differ")
     # -- known finding, replayed on the implementation
-    f9_replay(ctx)
+    f9_record(ctx, f9_future.result())
